@@ -223,24 +223,11 @@ func Main(name string, comp Component) {
 		h := &hs[i]
 		h.Obs = nil
 		// watchdog: a history that does not finish (e.g. a balancer loop that never terminates) is a violation of
-		// whatever property the component serves; report it and stop this process
-		type runRes struct {
-			mons []Mon
-			ok   bool
-		}
-		resCh := make(chan runRes, 1)
-		go func() {
-			m, k := comp.Run(h)
-			resCh <- runRes{m, k}
-		}()
-		var mons []Mon
-		var ok bool
-		select {
-		case r := <-resCh:
-			mons, ok = r.mons, r.ok
-		case <-time.After(time.Duration(*hangSecs) * time.Second):
+		// whatever property the component serves; report it and stop this process. The history itself runs on this
+		// goroutine (components that count goroutines rely on no stray ones being around).
+		timer := time.AfterFunc(time.Duration(*hangSecs)*time.Second, func() {
 			rep.Mons = append(rep.Mons, Mon{Prop: "*", Idx: h.Idx, Step: -1, Msg: fmt.Sprintf("history %d did not finish within %d s (hang)", h.Idx, *hangSecs)})
-			rep.MonSamples = append(rep.MonSamples, map[string]interface{}{"mon": rep.Mons[len(rep.Mons)-1], "history": comp.Describe(h), "line": h.Line()})
+			rep.MonSamples = append(rep.MonSamples, map[string]interface{}{"mon": rep.Mons[len(rep.Mons)-1], "line": h.Line()})
 			rep.Distinct = len(distinct)
 			rep.Stats = stats.Counts
 			js, _ := json.MarshalIndent(rep, "", " ")
@@ -253,7 +240,9 @@ func Main(name string, comp Component) {
 				fmt.Println(string(js))
 			}
 			os.Exit(0)
-		}
+		})
+		mons, ok := comp.Run(h)
+		timer.Stop()
 		if !ok {
 			rep.Invalid = append(rep.Invalid, h.Idx)
 			continue
